@@ -29,6 +29,16 @@ def fake_create_db(gtf, db, force=True, **kw):
         f.write("db-from:%s@%s%s" % (gtf, mt, "" if complete else ":inferred"))
 
 
+def fake_db2bed(db, bed, _=None):
+    # the junction BED is written record by record: the file exists (empty, then partial) before it is complete
+    with open(db, "r") as f:
+        content = f.read()
+    with open(bed, "w") as f:
+        f.write("bed-of:")
+        f.flush()
+        f.write(content + ";end")
+
+
 def make_process(pid, gtf, outdir, clean_start=False, with_mapper_caches=False, complete=True):
     def body(sched):
         import isoquant
@@ -40,7 +50,20 @@ def make_process(pid, gtf, outdir, clean_start=False, with_mapper_caches=False, 
         with open(db, "r") as f:
             content = f.read()
         res = {"gtf": g, "db": db, "db_content": content, "gtf_mtime": os.path.getmtime(gtf), "complete": complete}
-        if with_mapper_caches:
+        if with_mapper_caches == "annotation":
+            # FASTQ mode: the aligner step asks for the junction BED of the annotation (cached one or a fresh export) and reads it
+            import src.read_mapper as RM
+            RM.db2bed = fake_db2bed
+            args.genedb = db
+            args.no_junc_bed = False
+            args.junc_bed_file = None
+            args.reference = V + "data/ref%d.fa" % pid
+            args.data_type = "nanopore"
+            bed = RM.find_annotation("minimap2", args)
+            with open(bed, "r") as f:
+                res["bed_content"] = f.read()
+            res["bed_path"] = bed
+        elif with_mapper_caches:
             import src.read_mapper as RM
             args.reference = V + "data/ref%d.fa" % pid
             args.data_type = "nanopore"
@@ -94,6 +117,9 @@ def scenario(name):
         return [(1, g(1), o(1), True, False), (2, g(1), o(2), False, False)], lambda v: base_init(v, populated=[1])
     if name == "mapper-caches":
         return [(1, g(1), o(1), False, True), (2, g(2), o(2), False, True)], lambda v: base_init(v, populated=[1, 2])
+    if name == "bed-export-from-cached-db":
+        # both runs are handed the cached database (lying in the folder of an earlier run) and both export the junction BED for the aligner
+        return [(1, g(1), o(1), False, "annotation"), (2, g(1), o(2), False, "annotation")], lambda v: base_init(v, populated=[1])
     if name == "same-gtf-different-completeness":
         # the same annotation converted with and without --complete_genedb: each run must use a conversion made with its own setting
         return [(1, g(1), o(1), False, False, False), (2, g(1), o(2), False, False, True)], lambda v: base_init(v)
@@ -146,7 +172,11 @@ def make_check(specs):
             if r["db_content"] != exp:
                 out.append(("foreign-or-partial-db", "process %d uses %s whose content is %r, expected a conversion of its own input %r" %
                             (pid, r["db"], r["db_content"], exp)))
-            if mapper:
+            if mapper == "annotation":
+                if r["bed_content"] != "bed-of:" + r["db_content"] + ";end":
+                    out.append(("foreign-or-partial-bed", "process %d hands %s to the aligner whose content is %r, expected the complete export of "
+                                "its database %r" % (pid, r["bed_path"], r["bed_content"], r["db_content"])))
+            elif mapper:
                 got = (r["index"], r["bed"], r["bam"])
                 for name, gv, ev in zip(("index", "bed", "alignment"), got, r["expect"]):
                     if gv is not None and gv != ev:
@@ -198,6 +228,7 @@ def run(ctx):
     for n in two:
         jobs.append((n, 3 if quick else 4, 60000 if quick else 400000))
     jobs.append(("mapper-caches", 2 if quick else 3, 60000 if quick else 400000))
+    jobs.append(("bed-export-from-cached-db", 3 if quick else 4, 60000 if quick else 400000))
     jobs.append(("three-processes", 1 if quick else 2, 60000 if quick else 400000))
     if not quick:
         jobs.append(("three-fresh", 1, 400000))
